@@ -75,7 +75,7 @@ class CNode(fm.TimeComponent):
             else:
                 self.outputs.add(name=n)
                 if im.startswith("from_in:"):
-                    out_rules[n] = [FromInput(im.split(":")[1]), FromValue("time", self.time), FromValue("units", "m")]
+                    out_rules[n] = [FromInput(im.split(":")[1]), FromValue("time", self.time), FromValue("units", "m"), FromValue("tag", self.name)]
         self.create_connector(pull_data=[n for n, _ in self.ins], in_info_rules=in_rules, out_info_rules=out_rules)
 
     def const_value(self, oname):
